@@ -202,6 +202,7 @@ fn e2s<T>(r: fst::Result<T>) -> Result<T, String> {
 
 /// Raw insert build that also reports the cache counters (evictions, rejections).
 pub fn build_raw_counted(geom: Geom, ty: u64, kvs: &[Kv]) -> Result<(Vec<u8>, (u64, u64)), String> {
+    crate::poison::maybe();
     guard(|| {
         // hook constructor always, so that the counters exist
         let mut b = e2s(raw::Builder::verif_new_with_registry(
@@ -225,6 +226,7 @@ pub fn build_raw_counted(geom: Geom, ty: u64, kvs: &[Kv]) -> Result<(Vec<u8>, (u
 /// Builds the FST of `kvs` (strictly increasing keys) through `front`.
 /// `geom` is honoured by the raw front ends only. `Err` = error or panic.
 pub fn build(front: Front, geom: Geom, kvs: &[Kv]) -> Result<Vec<u8>, String> {
+    crate::poison::maybe();
     STRAY.with(|s| s.set(false));
     let r = guard(|| build_inner(front, geom, kvs)).and_then(|x| x);
     let usage = matches!(front, Front::RawInsertNoisy | Front::MapInsertNoisy | Front::SetInsertNoisy | Front::RawMixedBulk | Front::MapMixedBulk | Front::SetMixedBulk);
@@ -446,6 +448,7 @@ pub fn is_usage_skip(e: &str) -> bool {
 /// the builder ACCEPTED (by its own answers) and, if a call that must be
 /// rejected was accepted, a description of the first such call.
 pub fn noisy_build(kind: u8, geom: Geom, kvs: &[Kv], mask: u8) -> Result<(Vec<u8>, Vec<Kv>, Option<String>), String> {
+    crate::poison::maybe();
     guard(|| noisy_build_inner(kind, geom, kvs, mask)).and_then(|x| x)
 }
 
@@ -542,6 +545,7 @@ fn noisy_build_inner(kind: u8, geom: Geom, kvs: &[Kv], mask: u8) -> Result<(Vec<
 /// bytes, whether a must-be-rejected call was accepted, and (evictions,
 /// rejections).
 pub fn noisy_build_raw_counted(geom: Geom, kvs: &[Kv], use_add: bool) -> Result<(Vec<u8>, bool, (u64, u64)), String> {
+    crate::poison::maybe();
     guard(|| {
         let mut b = e2s(raw::Builder::verif_new_with_registry(Vec::with_capacity(256), 0, geom.0, geom.1))?;
         let mut stray = false;
